@@ -133,7 +133,7 @@ func (c connectUnaryGetClientProtocol) prepareUnmarshalledRequest(op *operation,
 	if op.client.reqCompression != nil && len(msgData) > 0 {
 		dst := op.bufferPool.Get()
 		defer op.bufferPool.Put(dst)
-		if err := op.client.reqCompression.decompress(dst, bytes.NewBuffer(msgData)); err != nil {
+		if err := op.client.reqCompression.decompressLimit(dst, bytes.NewBuffer(msgData), int64(op.methodConf.maxMsgBufferBytes)); err != nil {
 			return err
 		}
 		msgData = dst.Bytes()
